@@ -548,30 +548,62 @@ func init() {
 							}
 						}
 					}
-					// if !found { errs = append(errs, …) } unconditional in outer body
+					// on every path on which found is still false, an error is appended
+					isApp := func(st ast.Stmt) bool {
+						as, ok := st.(*ast.AssignStmt)
+						return ok && len(as.Rhs) == 1 && fi.isBuiltin(as.Rhs[0], "append") != nil && isErrorSlice(fi.Info.TypeOf(as.Lhs[0]))
+					}
+					var allPaths func(stmts []ast.Stmt) bool
+					allPaths = func(stmts []ast.Stmt) bool {
+						for _, st := range stmts {
+							if isApp(st) {
+								return true
+							}
+							is, ok := st.(*ast.IfStmt)
+							if !ok {
+								if terminates(&ast.BlockStmt{List: []ast.Stmt{st}}) {
+									return false
+								}
+								continue
+							}
+							thenOK := allPaths(is.Body.List)
+							if is.Else != nil {
+								var el []ast.Stmt
+								if b, ok := is.Else.(*ast.BlockStmt); ok {
+									el = b.List
+								} else {
+									el = []ast.Stmt{is.Else}
+								}
+								if thenOK && allPaths(el) {
+									return true
+								}
+								if terminates(is.Body) && !thenOK {
+									return false
+								}
+								continue
+							}
+							if terminates(is.Body) && !thenOK {
+								return false // a path leaves the iteration without reporting
+							}
+						}
+						return false
+					}
 					reported := false
-					for _, s := range outer.Body.List {
+					for i, s := range outer.Body.List {
 						is, ok := s.(*ast.IfStmt)
 						if !ok {
 							continue
 						}
 						cs := flatten(is.Cond, false, is)
-						if len(cs) != 1 || !cs[0].Neg || fi.varOf(cs[0].Expr) != foundVar {
+						if len(cs) != 1 || fi.varOf(cs[0].Expr) != foundVar {
 							continue
 						}
-						nApp, total := 0, 0
-						ast.Inspect(is.Body, func(m ast.Node) bool {
-							if as, ok := m.(*ast.AssignStmt); ok && len(as.Rhs) == 1 && fi.isBuiltin(as.Rhs[0], "append") != nil && isErrorSlice(fi.Info.TypeOf(as.Lhs[0])) {
-								total++
-								if fi.unconditionalIn(as, is.Body) {
-									nApp++
-								}
-							}
-							return true
-						})
-						// every path through the body appends: either an unconditional append, or an if/else with appends in both arms
-						if nApp > 0 || (total >= 2 && len(is.Body.List) == 1) {
-							reported = true
+						if cs[0].Neg {
+							// if !found { … }
+							reported = allPaths(is.Body.List)
+						} else if terminates(is.Body) && is.Else == nil {
+							// if found { continue }; …
+							reported = allPaths(outer.Body.List[i+1:])
 						}
 					}
 					if fresh && reported {
